@@ -651,10 +651,10 @@ func boundary(list ...*list.Element) (string, string) {
 		currStart := index.Entries[0].StartKey
 		currEnd := index.Entries[len(index.Entries)-1].EndKey
 
-		if currStart < start {
+		if types.CompareKeys(currStart, start) < 0 {
 			start = currStart
 		}
-		if currEnd > end {
+		if types.CompareKeys(currEnd, end) > 0 {
 			end = currEnd
 		}
 	}
